@@ -249,12 +249,16 @@ class Batch:
     def _aggregate(agg, res, samples):
         st = res.get("stats", {})
         agg["runs"] += 1
+        agg["evals"] = agg.get("evals", 0) + st.get("crash_points", st.get("evaluations", 1))
         agg["events"] += st.get("events", 0)
         agg["ops"] += st.get("ops", 0)
         for key in ("faults", "probes", "oracle_evals"):
             for name, n in st.get(key, {}).items():
                 agg[key][name] = agg[key].get(name, 0) + n
-        if st.get("trace_hash"):
+        if "sub_traces" in st:
+            agg["traces"].update(st["sub_traces"])
+            agg["nontrivial"].update(st.get("sub_nontrivial", []))
+        elif st.get("trace_hash"):
             agg["traces"].add(st["trace_hash"])
             if st.get("nontrivial"):
                 agg["nontrivial"].add(st["trace_hash"])
@@ -314,11 +318,12 @@ class Batch:
             "wall_s": round(wall, 2),
             "violations": len(new_violations),
             "coverage": {
-                "evaluations": agg["runs"],
+                "evaluations": agg.get("evals", agg["runs"]),
+                "histories": agg["runs"],
                 "distinct_nontrivial": len(agg["nontrivial"]),
                 "rule": scn.rule,
                 "samples": samples,
-                "runs_per_hour": int(agg["runs"] / max(wall, 1e-6) * 3600),
+                "runs_per_hour": int(agg.get("evals", agg["runs"]) / max(wall, 1e-6) * 3600),
                 "events": agg["events"],
                 "operations": agg["ops"],
                 "distinct_traces": len(agg["traces"]),
